@@ -101,6 +101,7 @@ type callRec struct {
 	Name string // plain
 	Obj  *CondJ // the object sent (update/create)
 	Res  string // class of the answer
+	Intruder bool // made by another goroutine inside the window of a flush
 }
 
 type sim struct {
@@ -116,8 +117,11 @@ type sim struct {
 	crashAt int // the goroutine making call number crashAt (0-based) dies instead; -1: never
 	crashed bool
 
-	hookMu sync.Mutex
-	hook   func(kind, name string) bool // runs before a call reaches the API; returns true once it has fired (disarms)
+	hookMu    sync.Mutex
+	hook      func(kind, name string) bool // runs before a call reaches the API; returns true once it has fired (disarms)
+	inWindow  bool                         // the hook is running an intruder: calls arriving now are the intruder's
+	gate      chan struct{}                // while set: calls of any goroutine but gateOwner wait
+	gateOwner string
 }
 
 var gr = proxyv1alpha1.Resource("ratelimitconditions")
@@ -155,9 +159,12 @@ func (s *sim) setHook(h func(kind, name string) bool) {
 // enter is the start of every call: hook, crash, fault script. It returns with s.mu held.
 func (s *sim) enter(kind, name string) (fault string) {
 	s.hookMu.Lock()
-	h := s.hook
+	h, inWindow, gate, owner := s.hook, s.inWindow, s.gate, s.gateOwner
 	s.hookMu.Unlock()
-	if h != nil && h(kind, name) {
+	if gate != nil && goID() != owner {
+		<-gate
+	}
+	if h != nil && !inWindow && h(kind, name) {
 		s.hookMu.Lock()
 		s.hook = nil
 		s.hookMu.Unlock()
@@ -188,7 +195,10 @@ func (s *sim) vanish(name string) *string {
 func (s *sim) leave(kind, name string, obj *CondJ, err error, ext *string) {
 	s.calls++
 	s.snaps = append(s.snaps, pointJ{Api: s.contents(), Ext: ext})
-	s.log = append(s.log, callRec{Kind: kind, Name: name, Obj: obj, Res: classify(err)})
+	s.hookMu.Lock()
+	inWindow := s.inWindow
+	s.hookMu.Unlock()
+	s.log = append(s.log, callRec{Kind: kind, Name: name, Obj: obj, Res: classify(err), Intruder: inWindow})
 	s.mu.Unlock()
 }
 
